@@ -254,6 +254,8 @@ class AnnounceOracle:
         for m in msgs:
             cls, sdm = refdec.classify(m)
             if cls != "sd":
+                if refdec.is_sd_header(m):
+                    self.viol("OFFER-CONTENT", f"SD message sent to {dst[0]} at {T:.6f} is not decodable: {sdm}", "undecodable-sd-message")
                 continue
             self._account(T, dst, sdm.entries)
             for pos, e in enumerate(sdm.entries):
